@@ -83,10 +83,26 @@ class Cell:
 
 
 class Leg:
-    __slots__ = ('kind', 'key', 'var', 'conj', 'size', 'origin', 'cell', 'flip', 'side')
+    __slots__ = ('kind', 'key', 'var', 'conj', 'size', 'origin', 'cell', 'flip', 'side', 'parent')
 
-    def __init__(self, kind, key, size, var=0, conj=False, origin='', cell=None, flip=False, side=0):
+    def __init__(self, kind, key, size, var=0, conj=False, origin='', cell=None, flip=False, side=0, parent=None):
         self.kind, self.key, self.size, self.var, self.conj, self.origin, self.cell, self.flip, self.side = kind, key, size, var, conj, origin, cell, flip, side
+        self.parent = parent       # for kind 'P' (a factor of a split index): (parent leg, part number)
+
+    def ident(self):
+        a = self.resolve()
+        return (a.kind, a.key, a.var, a.conj)
+
+    def split(self, first):
+        """split this index (size F) into a leading factor of size `first` and the remaining factor F/first (C order)"""
+        rest = Size.of(self.size, CTX.atoms).divide(first)
+        if rest is None:
+            return None
+        rest = simp(rest)
+        pk = self.ident()
+        a = Leg('P', (pk, str(first), 0), first, origin=f'{self}/0', parent=(self, 0))
+        b = Leg('P', (pk, str(first), 1), rest, origin=f'{self}/1', parent=(self, 1))
+        return a, b
 
     def flipped(self):
         """the same index after complex conjugation of the tensor"""
@@ -136,6 +152,8 @@ class Leg:
             return f"{a.origin or 'mode'}[site {a.key}]{'(+)' if a.var > 0 else '(-)'}"
         if a.kind == 'I':
             return f'eye#{a.cell.uid}.{a.side}' + ("^c" if a.flip else '')
+        if a.kind == 'P':
+            return f'{a.parent[0]}|{a.parent[1]}'
         return f'?{a.key}'
 
 
@@ -512,6 +530,13 @@ class Arr:
         self.buf.writes.append(('inplace-' + name, CTX.interp.where() if CTX.interp else ''))
         if isinstance(o, Arr):
             self.buf.inputs.append(o)
+        if 'sel_of' in self.tags and self.tags['sel_of'][0].buf is self.buf:
+            root, sel = self.tags['sel_of']
+            rec = {'sel': sel, 'value': o, 'where': CTX.interp.where() if CTX.interp else '', 'node': CTX.interp.cur_node() if CTX.interp else None, 'mode': name}
+            root.tags.setdefault('stores', []).append(rec)
+            if isinstance(o, Arr):
+                adopt_legs(root, None, sel, o)
+            self.tags['inplace_done'] = True
         CTX.event('inplace-op', target=self, op=name, value=o)
         self.tags.pop('const', None)
         self.tags.pop('orth', None)
@@ -557,6 +582,21 @@ def broadcast(a, b):
     return shape, legs
 
 
+def merge_parts(grp):
+    """adjacent factors that are the two parts (in order) of one split index are replaced by that index"""
+    grp = list(grp)
+    changed = True
+    while changed:
+        changed = False
+        for i in range(len(grp) - 1):
+            x, y = grp[i], grp[i + 1]
+            if x.kind == 'P' and y.kind == 'P' and x.parent[1] == 0 and y.parent[1] == 1 and x.key[:2] == y.key[:2]:
+                grp[i:i + 2] = [x.parent[0]]
+                changed = True
+                break
+    return grp
+
+
 # ------------------------------------------------------------------------------------------------ reshape
 def reshape(a, shape):
     shape = list(shape)
@@ -574,7 +614,7 @@ def reshape(a, shape):
     if not sz_eq(sz_prod(shape), total):
         raise value_error(f'cannot reshape array of shape {a.shape} (size {total}) into shape {tuple(shape)}')
     # leg bookkeeping: the factors of `a` in C order are distributed over the new axes
-    factors = flat(a.legs)
+    factors = list(flat(a.legs))
     out, pos, aligned = [], 0, True
     for s in shape:
         if is_one(s):
@@ -582,13 +622,23 @@ def reshape(a, shape):
             continue
         grp, prod = [], 1
         while pos < len(factors) and not sz_eq(prod, s):
-            grp.append(factors[pos]); prod = prod * factors[pos].size; pos += 1
-            if not Size.of(s, CTX.atoms).divide(prod) and not sz_eq(prod, s):
+            f = factors[pos]
+            need = Size.of(s, CTX.atoms).divide(prod)
+            if need is None:
                 break
+            need = simp(need)
+            if sz_eq(f.size, need) or Size.of(need, CTX.atoms).divide(f.size) is not None:
+                grp.append(f); prod = prod * f.size; pos += 1
+                continue
+            parts = f.split(need)
+            if parts is None:
+                break
+            grp.append(parts[0]); prod = prod * parts[0].size
+            factors[pos] = parts[1]
         if not sz_eq(prod, s):
             aligned = False
             break
-        out.append(tuple(grp))
+        out.append(tuple(merge_parts(grp)))
     if aligned and pos != len(factors):
         aligned = False
     if not aligned:
@@ -638,6 +688,29 @@ class SymIdx:
 
     def __hash__(self):
         return id(self)
+
+    def _cmp(self, o, op):
+        lo, hi1 = Size.of(self.lo, CTX.atoms), Size.of(self.hi, CTX.atoms) - 1      # lo <= self <= hi - 1
+        o = Size.of(o, CTX.atoms)
+        try:
+            if op in ('<', '<='):
+                if (hi1 < o) if op == '<' else (hi1 <= o):
+                    return True
+                if (lo >= o) if op == '<' else (lo > o):
+                    return False
+            else:
+                if (lo > o) if op == '>' else (lo >= o):
+                    return True
+                if (hi1 <= o) if op == '>' else (hi1 < o):
+                    return False
+        except UnknownTruth:
+            pass
+        raise UnknownTruth(f'order of index {self} in [{self.lo}, {self.hi}) and {o}')
+
+    def __lt__(self, o): return self._cmp(o, '<')
+    def __le__(self, o): return self._cmp(o, '<=')
+    def __gt__(self, o): return self._cmp(o, '>')
+    def __ge__(self, o): return self._cmp(o, '>=')
 
 
 class SymOff:
@@ -841,6 +914,8 @@ def getitem(a, idx):
 
 
 def setitem(a, idx, v):
+    if isinstance(v, Arr) and v.buf is a.buf and v.tags.get('inplace_done'):
+        return          # x[sel] op= y : the in-place operation on the view has already been recorded; storing the view back is a no-op
     idx = expand_index(a, idx)
     sel_shape, sel, ax = [], [], 0
     for x in idx:
